@@ -40,16 +40,17 @@ LEVEL_TEXT = ("Lean theorems over all event histories of one object in one proce
               "event after any number of requests); watched_first_never_resumed (an object first seen through ADDED/MODIFIED after "
               "admission requests is never resumed: creation never mixes with resuming); admitted_first_never_resumed / "
               "admitted_first_witness are REGRESSIONS about the pre-fix `admissionOld` (the witness is replayed on the real code and must pass). "
-              "Cycles cut short by an exception (Model/C14_Results: the handlers' RESULTS are delivered into the patch before the memory "
-              "notes the finished resuming handlers, the patch is sent after): completed_never_again_results — for ANY rule of what makes "
-              "the delivery raise, if the delivery of the completing pass's results did not raise, the handler is never invoked again, "
-              "whatever later cycles are cut (before or after the bookkeeping), whatever patches are lost (the completing pass's own "
-              "included), whatever the handlers return later; completed_never_again_copyable — for the code as it is that covers every "
-              "result that is None, a mapping, or copyable (all the JSON-unwritable ones: datetime, set, Decimal, bytes, nested views); "
-              "cut_before_memory_repeats (universal: a cycle cut before the bookkeeping is repeated in full by the same event seen "
-              "again); the clause is FALSE of the code for the remaining results — uncopyable_result_witness = open finding F11 (a "
-              "non-mapping result copy.deepcopy rejects: replayed on the real code on every run) — and of the seeded variant C14f: "
-              "json_normalised_variant_witness. "
+              "Cycles cut short by an exception (Model/C14_Results: since /repo 4eb6f10 the finished resuming handlers are noted in the "
+              "memory BEFORE the handlers' results are delivered into the patch; fully_handled_once and the patch come after): "
+              "completed_never_again_any_result(+_run) — UNGUARDED: for EVERY result the handlers return (copyable or not, mapping or not, "
+              "JSON or not) and ANY rule of what makes the delivery raise, a resume handler that reached its final outcome is never "
+              "invoked again, whatever later cycles are cut, whatever patches are lost (the completing pass's own included); "
+              "completed_never_again_results — the same for either order of the bookkeeping under 'the delivery of the completing "
+              "pass's results did not raise' (all that held before 4eb6f10); regressions about the OLD order: "
+              "uncopyable_result_old_order_witness (the repaired finding F11; corpus F11 must pass on the real code now), "
+              "cut_before_memory_repeats_old (universal), json_normalised_variant_old_order_witness (seed C14f on the tree it was "
+              "written for; on the code as it is the variant no longer repeats the handler); cut_at_delivery_sibling_repeats_witness: "
+              "what still repeats after a cut in the delivery are the handlers that are not resuming ones (C02/C03's matter). "
               "Model tied to the code per cycle (memory incl. resumed_handlers, cause, selection, invocations, records; for cycles that "
               "returned results or were cut: `C14.stepR` with the measured shapes of the results, incl. WHERE the cycle was cut).")
 THEOREMS = [("Kopf.Props.C14", "Kopf.C14." + n) for n in [
@@ -59,8 +60,9 @@ THEOREMS = [("Kopf.Props.C14", "Kopf.C14." + n) for n in [
     "marked_listed_selected_iff_optin", "free_step_nothing",
     "first_event_decides", "runA_eq_run", "eligible_selected_admitted", "eligible_invoked_admitted", "watched_first_never_resumed",
     "admitted_first_never_resumed", "admitted_first_witness",
-    "completed_never_again_results", "completed_never_again_copyable", "cut_before_memory_repeats",
-    "uncopyable_result_witness", "json_normalised_variant_witness"]]
+    "completed_never_again_results", "completed_never_again_any_result", "completed_never_again_any_result_run",
+    "cut_before_memory_repeats_old", "cut_at_delivery_sibling_repeats_witness",
+    "uncopyable_result_old_order_witness", "json_normalised_variant_old_order_witness"]]
 RULE = ("seeded scenarios: objects handled by a first incarnation, then stop/kill + restart; 1-3 resume handlers (label filters, "
         "deleted opt-in, failures/retries) next to create/update/delete handlers; re-listings (history compaction + 410), "
         "stream reconnects, edits and label flip-flops before/during/after the resume cycle, deletions; one case = one processing "
@@ -89,6 +91,9 @@ ASSUMPTIONS = ["the positive clause is not judged for an object one of whose cyc
                "to run wait for the next event of the object (observed: with lifecycle asap/one_by_one a resume handler's unstorable "
                "result starves its siblings until then); counted in first_clause/not-judged",
                "results of sub-handlers (delivered inside the parent's invocation: a failure there is the parent's error) are not in the model",
+               "a cycle cut in the delivery of the results leaves fully_handled_once unset and resumed_handlers uncleared even if the pass "
+               "would have closed the cycle (modelled so: cutAtDelivery; tied per cycle); the non-resuming handlers of that pass are "
+               "repeated by the next event (cut_at_delivery_sibling_repeats_witness): not C14's clause",
                "filters (`registries.match`) enter the model as the observed per-handler match result (C15's subject)",
                "`eligible_invoked` (first attempt in the first non-suppressed cycle; unchanged objects and objects edited while the "
                "operator was down alike) is proved for the all-at-once lifecycle; `suppressed_keeps_initial` carries it over a "
@@ -502,7 +507,6 @@ def gen_stacked_siblings(rng: Any, i: int) -> dict:
 PLAIN_RESULTS: list = ["done", 7, 0, "", True, False, [1, 2], [], {"ok": True, "items": [1, 2]}, {}, {"a": {"b": None}}, 1.5]
 PY_RESULT_KINDS = ["datetime", "datetime", "date", "timedelta", "set", "frozenset", "tuple", "bytes", "decimal", "complex", "object",
                    "view", "view", "userdict", "mappingproxy", "intkeys", "tuplekeys", "circular", "lock", "generator"]
-F11_SIG = {"site": "progression.deliver_results", "shape": "resume handler repeated: a result delivered in its completing pass (its own or a sibling's; not a mapping, rejected by copy.deepcopy) raised in the delivery of results, before the memory noted the handler as finished"}
 
 
 def _result(rng: Any) -> Any:
@@ -689,17 +693,7 @@ def oracle(ctx: Ctx, sc: dict, tr: dict) -> None:
                     dropped_while_selected = True
                 else:
                     dropped = True
-        # … or did every completed call before the repetition return something that is not a mapping and that Python itself
-        # cannot copy (measured on the returned value by the scripted handler: `result_shape`) — open finding F11?
-        # (the results of one pass are delivered together: the completing call's own result, or that of a handler that returned
-        # in the same pass of the same cycle)
-        idx0 = next((n for n, c in enumerate(tr["calls"]) if c is calls[k0]), None)
-        same_pass = [tr["calls"][iv["call"]] for cyc in tr["cycles"] if any(iv.get("call") == idx0 for iv in cyc["invoked"])
-                     for iv in cyc["invoked"] if isinstance(iv.get("call"), int)] or [calls[k0]]
-        uncopyable = any(c.get("outcome") == "ok" and (sh := c.get("result_shape")) and not sh["none"] and not sh["mapping"]
-                         and not sh["copyable"] for c in same_pass)
-        sig = (F11_SIG if uncopyable and not dropped and not dropped_while_selected else
-               F9_SIG if dropped and not dropped_while_selected else
+        sig = (F9_SIG if dropped and not dropped_while_selected else
                {"site": "process_changing_cause", "shape": "finished record of a still-selected resume handler lost in an open cycle"}
                if dropped_while_selected else
                {"site": "process_changing_cause", "shape": "resume handler completed twice in one process"})
@@ -892,7 +886,7 @@ def run(ctx: Ctx) -> None:
             if cut or any(not sh[0] for sh in shapes) or cyc.get("apply_raised"):
                 req = ["C14.stepR", {**req[1], "results": shapes, "patchLost": bool(cyc.get("apply_raised"))}]
                 if not flags[1]:     # (no patch is sent for a DELETED event)
-                    impl["cut"] = "before-memory" if cut else "patch-lost" if cyc.get("apply_raised") else "through"
+                    impl["cut"] = "at-delivery" if cut else "patch-lost" if cyc.get("apply_raised") else "through"
             sel_res = sorted(set(impl["selected"] or []) & resume_ids)
             shape = {"mem": req[1]["mem"], "flags": flags, "reason": cause["reason"], "sel_resume": len(sel_res),
                      "out": sorted((o["final"], o["error"]) for o in req[1]["outcomes"].values())}
@@ -939,7 +933,7 @@ def run(ctx: Ctx) -> None:
                  "selected": m["selected"] if impl["selected"] is not None else None,
                  "invoked": m["invoked"], "P": m["P"] if impl["P"] is not None else None}
         if "cut" in impl:
-            model["cut"] = ("before-memory" if out[1]["deliveryRaises"] and m["invoked"] else
+            model["cut"] = ("at-delivery" if out[1]["deliveryRaises"] and m["invoked"] else
                             "patch-lost" if req[1]["patchLost"] or out[1]["wireRaises"] else "through")
         ctx.compare("C14 processing cycle", impl, model, wh)
 
